@@ -329,7 +329,9 @@ def _get_cvar_weights_from_percentile(
 
     p_max = 1.0 / indices.size
     n_var = int(percentile * indices.size)
-    p_var = percentile - n_var * p_max
+    # Rounding may make percentile * size land just above an integer, the
+    # remainder must not become (slightly) negative:
+    p_var = max(percentile - n_var * p_max, 0.0)
 
     weights[indices[:n_var]] = p_max
     if n_var < indices.size:
